@@ -69,6 +69,19 @@ def run(rng, tier):
                     try: r = U(x.copy()) ** r_
                     except Exception as e: yield case, 'raises %s: %s' % (type(e).__name__, str(e)[:120]); continue
                     yield case, _cmp(r.data, PA.powc(x, r_), True, tol=1e-9)
+                # integer powers are defined (no division) at a vanishing or tiny zeroth coefficient: exact repeated Cauchy product
+                if not xc:
+                    for r_ in (2, 3, 4, 5, 7):
+                        for x0v in (0.0, 1e-100):
+                            xz = x.copy(); xz[0] = x0v
+                            if D > 1 and shp: xz[0][(0,) * (xz[0].ndim - 1) + (-1,)] = 0.75           # a regular entry next to the special ones
+                            case = {'op': '**', 'r': repr(r_), 'D': D, 'P': P, 'shape': list(shp), 'x0': x0v}
+                            try:
+                                with numpy.errstate(all='ignore'): r = U(xz.copy()) ** r_
+                            except Exception as e: yield case, 'raises %s: %s' % (type(e).__name__, str(e)[:120]); continue
+                            want = PA.powc(xz, r_)
+                            ok = numpy.all(numpy.isfinite(r.data)) and numpy.allclose(r.data, want, rtol=1e-9, atol=1e-300)
+                            yield case, (None if ok else 'integer power at a zero / tiny zeroth coefficient differs from the repeated Cauchy product (max err %.3g, non-finite: %s)' % (float(numpy.nanmax(numpy.abs(r.data - want))) if numpy.isfinite(r.data).any() else float('nan'), not numpy.all(numpy.isfinite(r.data))))
                 for b in (2, 2.5, numpy.float64(1.5)):
                     case = {'op': 'rpow', 'base': repr(b), 'D': D, 'P': P, 'shape': list(shp), 'x_complex': xc}
                     try: r = b ** U(x.copy())
